@@ -62,6 +62,8 @@ def check(text, exp, desc):
             ok = type(pub) is pendulum.Date and (pub.year, pub.month, pub.day) == (exp.year, exp.month, exp.day)
         else:
             ok = type(pub) is pendulum.Time and pub.replace(tzinfo=None) == exp.replace(tzinfo=None)
+            if ok and exp.tzinfo is not None and (pub.tzinfo is None or pub.utcoffset() != exp.utcoffset()):
+                return dict(desc, text=text, backend=backend, kind="time-offset-dropped", got=repr(pub), expected=repr(exp))
         if not ok:
             return dict(desc, text=text, backend=backend, kind="wrong-public", got=repr(pub), expected=repr(exp))
     except BaseException as e:  # noqa: BLE001
@@ -124,13 +126,21 @@ inv = isogen.invalid_cases()
 for text in inv:
     try:
         r = parse_iso8601(text)
-        fails.append({"text": text, "backend": backend, "kind": "accepted-invalid", "got": repr(r),
+        fails.append({"text": text, "backend": backend, "kind": "accepted-invalid", "got": repr(r), "offset_out_of_range": bool(__import__("re").search(r"[+-](?:(?:2[4-9]|[3-9]\d)(?::?\d\d)?|\d\d:?[6-9]\d)$", text)),
                       "week_or_weekday_zero": ("W00" in text) or (text.endswith("-0") and "W" in text) or (("W" in text) and "-" not in text and len(text) == 8 and text.endswith("0"))})
     except ValueError:
         pass
     except BaseException as e:  # noqa: BLE001
         fails.append({"text": text, "backend": backend, "kind": "escaped", "error": f"{type(e).__name__}: {e}"[:160]})
-out["items"].append({"name": f"{backend}.iso_invalid", "evaluations": len(inv), "distinct": len(inv), "exhaustive": False, "failures": fails[:CAP],
+_seen = {}
+_kept = []
+for f in fails:
+    k = (f["kind"], f.get("week_or_weekday_zero"), f.get("offset_out_of_range"))
+    _seen[k] = _seen.get(k, 0) + 1
+    if _seen[k] <= 6:
+        _kept.append(f)
+out["items"].append({"name": f"{backend}.iso_invalid", "evaluations": len(inv), "distinct": len(inv), "exhaustive": False, "failures": _kept,
+                     "failure_classes": [{"class": list(map(str, k)), "count": v} for k, v in _seen.items()],
                      "rule": "impossible dates (Feb 29/30, day 0/32, month 0/13), ordinals (000, 366 of a common year, 367), weeks (00, 53 of a short year, 54), weekdays (0, 8), times (24:00, :60) for 9 years: rejected with a ValueError",
                      "secs": round(time.time() - t0, 1)})
 
